@@ -3,6 +3,13 @@
 AEAD = "ideal (symbolic) AEAD: only honest ciphertexts open, under exactly their key/salt/nonce (DESIGN §3)"
 
 PROPS = {
+    "C05": {
+        "gen_keys": ["private_net", "RequirePublicIP", "CIDR"],
+        "trusted_base": ["Go stdlib net.IP predicates (IsGlobalUnicast etc.), ParseIP, IPNet.Contains are modelled in IPClass.v and validated on every block boundary by the correspondence",
+                         "net.Dialer invokes Control with the literal connect address before every connect attempt (stdlib, modelled)"],
+        "assumptions": ["default policy = onet.RequirePublicIP as wired in NewPacketHandler / defaultDialer"],
+        "explanation": "exact characterisation theorem over all 2^32+2^128 addresses (both directions) against the CIDR list and guard structure regenerated from net/private_net.go; correspondence: real RequirePublicIP/IsPrivateAddress/net.IP predicates on all block boundaries in 4-byte, mapped and native form + random",
+    },
     "C07": {
         "gen_keys": ["MaxCapacity", "replay"],
         "trusted_base": ["Go map of uint32 modelled as duplicate-free list; sync.Mutex makes Add/Resize atomic"],
